@@ -91,6 +91,13 @@ type vc13T interface {
 
 // vc13URLInfo is what was planned for one path in one round.
 type vc13URLInfo struct {
+	// rejected is set if the body is delivered completely but its consumer
+	// cannot process it (a processing-level fault).
+	rejected bool
+
+	// flavor is the content flavour of the body.
+	flavor string
+
 	kind vc13Kind
 	ok   bool
 	ver  int
@@ -322,9 +329,10 @@ func vc13Cut(n, pct int) (cut int) {
 	return cut
 }
 
-// vc13OversizeFill is a number of filler entries that makes every kind of
-// body larger than vc13MaxSize.
-const vc13OversizeFill = 260
+// vc13FaultHashMax is the size limit of the hash lists in the fault-sequence
+// part; it is above 64 KiB so that a list with a line that the parser cannot
+// take still downloads.
+const vc13FaultHashMax = 128 << 10
 
 // plan turns the scripts of round number n into server responses and the
 // oracle's view of them.
@@ -353,10 +361,19 @@ func (w *vc13World) plan(n int, rd *vc13Round) (resps map[string]*vc13Resp, info
 			}
 			ui.ok = true
 		case vc13Oversize, vc13OversizeChunked, vc13OversizeClose:
-			if sc.Over > 0 {
-				// A well-formed body of exactly limit+Over octets.
+			{
+				// A well-formed body of exactly limit+over octets.  The
+				// largest enumerated excess means "twice the limit".
 				const minPad = 3
-				want := limit + sc.Over
+				over := sc.Over
+				switch over {
+				case 0:
+					over = 2000
+				case vc13MaxSize:
+					over = limit
+				}
+
+				want := limit + over
 				pad := minPad + want - len(fresh(2, minPad))
 				if pad < minPad {
 					panic("vc13: cannot make a body that small")
@@ -366,8 +383,6 @@ func (w *vc13World) plan(n int, rd *vc13Round) (resps map[string]*vc13Resp, info
 				if len(r.body) != want {
 					panic(fmt.Sprintf("vc13: sized body has %d octets, want %d", len(r.body), want))
 				}
-			} else {
-				r.body = fresh(vc13OversizeFill, 0)
 			}
 		case vc13S404, vc13S500:
 			r.body = fresh(sc.Fill, 0)
@@ -447,7 +462,12 @@ func (w *vc13World) plan(n int, rd *vc13Round) (resps map[string]*vc13Resp, info
 		}
 
 		flavor := ""
-		if s.kind == vc13KindSvc {
+		switch {
+		case s.kind == vc13KindSvc:
+			flavor = sc.Flavor
+		case s.kind == vc13KindHash && sc.Flavor == "longline":
+			flavor = sc.Flavor
+		case (s.kind == vc13KindRule || s.kind == vc13KindSS) && sc.Flavor == "junk":
 			flavor = sc.Flavor
 		}
 
@@ -457,8 +477,10 @@ func (w *vc13World) plan(n int, rd *vc13Round) (resps map[string]*vc13Resp, info
 			return vc13Body(s, n, fill, flavor, pad)
 		}
 
-		valid := flavor == ""
+		valid := flavor == "" || flavor == "junk"
 		ui := add(s.path, sc, mk, valid, w.pub[s.path])
+		ui.flavor = flavor
+		ui.rejected = ui.ok && flavor == "longline"
 		if ui.ok && valid {
 			if v, seen := w.vers[s.file][string(ui.body)]; seen {
 				ui.ver = v
@@ -686,11 +708,25 @@ func (w *vc13World) checkRound(
 		ui := info.urls[s.path]
 		b := before.Served[s.name]
 
-		faulted := !ui.ok
+		if ui.flavor == "junk" && ui.ok && hits[s.path] > 0 && ri > 0 {
+			// Not a fault: the parser of rule lists and safe-search lists
+			// skips what it cannot read, there is no error path.
+			cls("content-junk:" + s.kind)
+			if after.Served[s.name] == ui.ver {
+				cls("content-junk-accepted:" + s.name)
+			}
+		}
+
+		faulted := !ui.ok || ui.rejected
+		kindLabel := string(ui.kind)
+		if ui.rejected {
+			kindLabel = "content_" + ui.flavor
+		}
+
 		if faulted && hits[s.path] > 0 {
-			cls("fault:" + string(ui.kind))
+			cls("fault:" + kindLabel)
 			cls("fault-slot:" + s.kind)
-			cls("cell:" + s.name + ":" + string(ui.kind))
+			cls("cell:" + s.name + ":" + kindLabel)
 			if over := rd.S[s.name].Over; over > 0 {
 				cls(fmt.Sprintf("cell:%s:%s:+%d", s.name, ui.kind, over))
 			}
@@ -704,7 +740,9 @@ func (w *vc13World) checkRound(
 
 		switch s.kind {
 		case vc13KindHash:
-			if ui.ok {
+			if ui.rejected {
+				check(s, []int{b}, nil, "it is delivered completely, but its parser rejects it: "+ui.flavor)
+			} else if ui.ok {
 				check(s, []int{b, ui.ver}, []int{ui.ver}, "hash list delivered completely")
 			} else {
 				check(s, []int{b}, nil, "its download failed: "+string(ui.kind))
@@ -954,7 +992,7 @@ func (w *vc13World) checkRestart(seq *vc13Seq, last *vc13Obs, cacheOn bool) (cla
 
 // vc13RunSeq runs one sequence against the real code.
 func vc13RunSeq(t vc13T, st *vstat.Stats, msgs *dnsmsg.Constructor, baseDir string, seq *vc13Seq) {
-	w := vc13NewWorld(t, st, msgs, baseDir, seq.CacheOn, vc13Timeout, vc13MaxSize)
+	w := vc13NewWorld(t, st, msgs, baseDir, seq.CacheOn, vc13Timeout, vc13FaultHashMax)
 	defer w.close()
 
 	var classes []string
@@ -1189,7 +1227,20 @@ func vc13GenSeq(t *rapid.T) (seq *vc13Seq) {
 		for _, s := range vc13Slots {
 			switch {
 			case !faulty[s.name]:
-				rd.S[s.name] = vc13GenOK(t, lbl+"-"+s.name)
+				sc := vc13GenOK(t, lbl+"-"+s.name)
+				if (s.kind == vc13KindRule || s.kind == vc13KindSS) && sc.Kind == vc13OKNew &&
+					rapid.IntRange(0, 5).Draw(t, lbl+"-junk-"+s.name) == 0 {
+					sc.Flavor = "junk"
+				}
+
+				rd.S[s.name] = sc
+			case s.kind == vc13KindHash && rapid.IntRange(0, 4).Draw(t, lbl+"-hash-content-"+s.name) == 0:
+				// Delivered completely, rejected by the parser.
+				rd.S[s.name] = vc13Script{
+					Kind:   vc13OKNew,
+					Fill:   rapid.IntRange(0, 12).Draw(t, lbl+"-hash-fill-"+s.name),
+					Flavor: "longline",
+				}
 			case s.kind == vc13KindSvc && rapid.IntRange(0, 2).Draw(t, lbl+"-svc-content") == 0:
 				rd.S[s.name] = vc13Script{
 					Kind:   vc13OKNew,
@@ -1233,6 +1284,7 @@ var vc13RequiredClasses = []string{
 	"fault-after-success",
 	"fault-without-previous",
 	"fault:conn_close", "fault:hang_hdr", "fault:hang_body", "fault:s404", "fault:s500", "fault:empty",
+	"fault:content_longline", "content-junk:rule", "content-junk:ss",
 	"fault:oversize", "fault:oversize_chunked", "fault:oversize_close", "fault:short_cl", "fault:chunk_trunc",
 	"fault-slot:rule", "fault-slot:svc", "fault-slot:ss", "fault-slot:hash",
 	"idx:fault", "idx:partial", "idx:garbage",
@@ -1390,6 +1442,28 @@ func vc13GridSeqs() (seqs []*vc13Seq) {
 		seqs = append(seqs, three(mid))
 	}
 
+	// Processing-level faults: a complete download that the parser of the
+	// hash lists rejects (a line over 64 KiB between valid hosts), alone and
+	// for all three lists at once; and, for the list kinds whose parser has
+	// no error path, content that it has to skip.
+	for _, fill := range []int{4, 11} {
+		all := okRound()
+		for _, name := range vc13HashOrder {
+			mid := okRound()
+			mid.S[name] = vc13Script{Kind: vc13OKNew, Fill: fill, Flavor: "longline"}
+			seqs = append(seqs, three(mid))
+			all.S[name] = mid.S[name]
+		}
+
+		seqs = append(seqs, three(all))
+	}
+
+	for _, name := range []string{"a", "b", "c", "ssg", "ssy"} {
+		mid := okRound()
+		mid.S[name] = vc13Script{Kind: vc13OKNew, Fill: 5, Flavor: "junk"}
+		seqs = append(seqs, three(mid))
+	}
+
 	return seqs
 }
 
@@ -1399,6 +1473,14 @@ func TestVerifC13FaultGrid(t *testing.T) {
 		"fault-after-success", "fault-without-previous", "restart:checked", "partial-index-valid-entries-applied",
 		"probe:looked-while-body-in-flight", "file-replaced-by-new-inode",
 	}
+	for _, name := range vc13HashOrder {
+		req = append(req, "cell:"+name+":content_longline")
+	}
+
+	for _, name := range []string{"a", "b", "c", "ssg", "ssy"} {
+		req = append(req, "content-junk-accepted:"+name)
+	}
+
 	for _, k := range vc13FaultKinds {
 		for _, tg := range vc13Targets {
 			req = append(req, "cell:"+tg+":"+string(k))
